@@ -128,7 +128,8 @@ PLAN["C12"] = dict(
     explanation="registry invariant (every entry stored under its own name, ids injective) preserved by handle_host_id / handle_module_id; acceptance implies no id or name clash with any registered "
                 "item (the search loops' normal exit), each error is raised only when the corresponding clash exists, range errors exactly outside the permitted ranges (with the core_defs / "
                 "import_coredefs exemptions); validate_msg_id likewise for messages, signals and reserved ids")
-from pyvc import tables as _tables, detcheck as _detcheck, hashcheck as _hashcheck, importcheck as _importcheck
+from pyvc import tables as _tables, detcheck as _detcheck, hashcheck as _hashcheck, importcheck as _importcheck, rgcheck as _rgcheck
+from .logger_contracts import LOGGER_C17, LOGGER_SIDECARS
 PLAN["C12"]["extra"] = [_importcheck.check]
 PLAN["C04"] = dict(
     functions=[], extra=[_tables.check], level="other",
@@ -161,15 +162,25 @@ PLAN["C13"] = dict(
     assumptions=ENV_ASSUMPTIONS[:1] + CLIENT_ASSUMPTIONS,
     explanation="hash = sha256(template(name, id, ordered fields)); template depends on and only on those elements and parses uniquely; back ends print the same 8 hex digits; send_message stamps it")
 
+PLAN["C17"] = dict(
+    functions=LOGGER_C17, sidecars=LOGGER_SIDECARS, extra=[_rgcheck.check], level="other",
+    level_text="PARTIAL: the two-event hand-shake between the recording thread and the writer thread, and the staging of buffers; file formats are not decided. Thread-modular (rely/guarantee) "
+               "contracts: the writer's steps are read off the real body of DataCollection.write (write pass, then its Event operations in program order) as a transition relation over "
+               "(write_to_disk, write_finished, writer pc, 'staged and unwritten'); its reflexive-transitive closure is applied as interference before EVERY shared access of the recording "
+               "thread (Event operations, stage_for_write / stop / close of a data set) while update, trigger_write and stop are verified from their real source by pyvc/z3. Obligations: the "
+               "recording thread touches a data set's writer-side state only in states from which no writer step sequence enters the write pass; it stages only over an empty (written) write buffer; "
+               "stage_for_write moves the recorded messages in order; update / trigger_write / stop re-establish the protocol invariant, every writer step preserves it (z3, finite), stop() ends with "
+               "every read buffer handed over. For every interleaving at the granularity of the Event operations, any number of data sets, any message sequence and deadline placement.",
+    technique="contract-based, thread-modular: rely = closure of the writer's extracted step relation, applied as a contract prelude at every shared access; VCs from the real source by pyvc, discharged by z3",
+    assumptions=ENV_ASSUMPTIONS[:1],
+    explanation="hand-shake ownership + buffer staging for all interleavings; formatters, file contents, the quicklogger reader, pause/resume timing and restart-after-stop are not decided")
+
 NOT_APPLICABLE = {
     "C10": "not decided: the round trip goes through json.dumps/json.loads, ctypes reflection over _fields_ of arbitrary generated classes and float repr; the string/float theories needed (float <-> shortest-repr "
            "text, JSON escaping) are outside what the z3/cvc5 encodings built here can discharge, and a bounded CrossHair run would not count as proved. The defect found by reading (stale bytes after "
            "NUL in char arrays) was repaired under C09/C10 (see known_findings.json).",
     "C15": "not decided: the property is about generated C / JavaScript / MATLAB / Python text loading in its language; it needs reader models of four target languages (DESIGN 2.5 Emit domain), not built. "
            "Known emission-order defects (alias of struct, struct with message field, JS Array.fill) were reproduced by hand in phase 1 and are described in DESIGN 8; they are not checked mechanically.",
-    "C17": "not applicable to this family as built: the property quantifies over interleavings of the recording thread and the writer thread; the verifier is sequential and the rely/guarantee pass planned "
-           "in DESIGN 5 (C17) was not brought to generate its obligations mechanically from the two thread bodies, so the interleaving clause is withdrawn as the design said it would be. The race found by "
-           "reading in phase 1 (write_to_disk cleared before write_finished is set) is described in DESIGN; it is not repaired because no check here would guard the repair.",
 }
 for _p in PLAN.values():
     _p.setdefault("level", "proof")
